@@ -373,8 +373,30 @@ def c10f(ck, prog):
                 if not (ost and ost[-1][0] == "multi" and all(pr[0] == "d" for pr in ost[-1][2])):
                     # a value computed in this iteration (the result of a call made in the loop body, e.g. a header-parsing helper)
                     if ost and ost[-1][0] == "call" and ost[-1][1].bb in body:
+                        # ... unless the call merely transforms a variable that lives across iterations (`mimetype.trim()`):
+                        # follow the call's arguments to the variables they read
+                        stale = None
+                        todo, seen_c = [ost[-1][1]], set()
+                        while todo and stale is None:
+                            cc = todo.pop()
+                            if cc.bb in seen_c:
+                                continue
+                            seen_c.add(cc.bb)
+                            for a in cc.args:
+                                ao = f.origin(a) if a[0] in ("c", "m") else None
+                                if not ao:
+                                    continue
+                                if ao[-1][0] == "call" and ao[-1][1].bb in body:
+                                    todo.append(ao[-1][1])
+                                elif ao[-1][0] == "multi":
+                                    dl = [d for d in f.defs().get(ao[-1][1], []) if not f.is_cleanup(d[0]) and not (d[2] == "assign" and d[3]["p"][1])]
+                                    if [d for d in dl if d[0] not in body] and [d for d in dl if d[0] in body] and f.locals[ao[-1][1]] and "Reader" not in f.locals[ao[-1][1]]:
+                                        stale = ao[-1][1]
                         n += 1
-                        ck.ob(R, "%s:fresh-per-part" % fname, True, f.loc(st.get("sp")), how="`%s` is the result of a call made in this iteration of the part loop" % fname)
+                        oks = stale is None
+                        ck.ob(R, "%s:fresh-per-part" % fname, oks, f.loc(st.get("sp")),
+                              "" if oks else "the `%s` handed to a part is computed from a variable that lives across iterations of the part loop (assigned before the loop and again inside it): a part that does not send the header gets a value derived from an earlier part's" % fname,
+                              how="`%s` is the result of a call made in this iteration of the part loop" % fname)
                     continue
                 l = ost[-1][1]
                 n += 1
